@@ -14,7 +14,7 @@ LEVEL = 'exploration'
 RULE = ('complete matrix {write_txt, write_jsonfile, write_jsondict, update_jsondict, delete_files, open_file x 7 '
         'writing modes} x every protected name of an Array and of a RaggedArray (incl. values/ and indices/ and the '
         'files beneath them, and metadata.json present or absent) x spelling {as stored, Path, ./x, .//x, x/, sub/../x, '
-        'doubled separator, values/../values/x} x overwrite flag: the call must raise OSError and the directory snapshot '
+        'doubled separator, values/../values/x} x overwrite flag x preceding read-only open of the same name: the call must raise OSError and the directory snapshot '
         'must be byte-identical; plus generated user-file round trips (JSON dicts, unicode text), overwrite gate and '
         'delete_files set semantics. All matrix cells are non-trivial; distinct by cell or by generated content')
 EXHAUSTIVE = True
@@ -78,8 +78,11 @@ def cases(tier, seed):
                         for ow in (False, True):
                             if meth.startswith(('open_file', 'delete', 'update')) and ow:
                                 continue
-                            yield {'t': 'protected', 'kind': kind, 'md': with_md, 'name': name, 'spelling': sp,
-                                   'method': meth, 'overwrite': ow}
+                            for prelude in ('none', 'read-open'):
+                                if prelude == 'read-open' and (ow or not with_md):
+                                    continue
+                                yield {'t': 'protected', 'kind': kind, 'md': with_md, 'name': name, 'spelling': sp,
+                                       'method': meth, 'overwrite': ow, 'prelude': prelude}
     n = 300 if tier == 'quick' else 3000
     for k in range(n):
         yield {'t': 'user', 'kind': 'Array' if k % 2 else 'RaggedArray', 'k': k}
@@ -126,6 +129,17 @@ def run_case(case, env):
             return run_user(case, env, res, d)
         a, p = make(env, d, case['kind'], case['md'])
         fn = spell(case['name'], case['spelling'])
+        if case.get('prelude') == 'read-open':
+            # history: the same name is first opened read-only (allowed), through the same DataDir object
+            try:
+                with a.datadir.open_file(fn, 'r') as f:
+                    f.read(1)
+            except Exception:
+                pass
+            try:
+                a.datadir.read_txt(fn)
+            except Exception:
+                pass
         before = snapshot(p)
         raised = None
         try:
